@@ -265,10 +265,11 @@ class ConcreteDom:
 
     symbolic = False
 
-    def __init__(self, model: Dict[str, Any]):
+    def __init__(self, model: Dict[str, Any], gi: Optional[int] = None, tag: str = ""):
         self.model = model
         self.gs = int(model["gs"])
-        self.gi = int(model["gi"])
+        self.gi = int(model["gi"]) if gi is None else int(gi)
+        self.tag = tag
 
     def const(self, n: int) -> int:
         return n
@@ -277,7 +278,7 @@ class ConcreteDom:
         return int(self.model.get("fields", {}).get(name, {}).get(str(int(slot)), 0))
 
     def fresh(self, key: str, lo: int = 0, hi: int = MAX_UINT64) -> int:
-        return int(self.model.get("fresh", {}).get(key, 0))
+        return int(self.model.get("fresh", {}).get(self.tag + key, 0))
 
     def glob(self, name: str) -> int:
         return int(self.model.get("globals", {}).get(name, 0))
@@ -411,6 +412,9 @@ class Executor:
         if self.mode == "FREE":
             if kind == "self" and fname in self.governed:
                 return V(d.field(fname, slot_t), prov)
+            if (kind, n, fname) in self.governed:
+                # a governed read of another group member (C13): absolute slot n / offset n from this transaction
+                return V(d.field(fname, d.const(n) if kind == "abs" else d.gi + n), prov)
             return V(self._fresh(st, "rd_" + fname), None)
         if fname in GOVERNED or fname in OTHER_ADDR_FIELDS:
             return V(d.field(fname, slot_t), prov)
@@ -597,8 +601,8 @@ class Executor:
             if exact:
                 self._require(st, idx.t < d.gs, k_gtxns, "gtxns index >= GroupSize")
                 return None
-            if kind == "self":
-                return cont(rest + (self._field_read(st, a[0], d.gi, "self", 0),), abs_reads=reads)
+            if kind in ("self", "abs", "rel"):
+                return cont(rest + (self._field_read(st, a[0], d.gi, kind, n),), abs_reads=reads)
             return cont(rest + (V(self._fresh(st, "rd_" + a[0]), None),), abs_reads=reads)
         if op in CMP_OPS:
             need(2)
@@ -862,6 +866,8 @@ class Executor:
             if c.prov is None or c.prov[0] != "c" or f.prov is None:
                 continue
             if f.prov[0] == "f" and f.prov[2] == "self" and f.prov[1] in self.governed:
+                return True
+            if f.prov[0] == "f" and (f.prov[2], f.prov[3], f.prov[1]) in self.governed:
                 return True
             if f.prov[0] == "gi" and "GroupIndex" in self.governed:
                 return True
